@@ -151,6 +151,26 @@ def run(ctx):
         else:
             pvlib.report_violation(ctx, "corr:b64.decseq", {"ops": [o], "impl": x, "model": y, "correspondence": "PV.Base64.decode vs base64_decode"},
                                    no_input=True, summary=f"model/impl correspondence broken at {o[:80]}: impl {xs[k][:40]} model {ys[k][:40]}")
+    # ---- base64_number: every non-empty line of document i, tabs as spaces, followed by TAB and i (model PV.Tools2)
+    dpool = [b"", b"a", b"a\n", b"\n", b"\n\na", b"a\tb\n", b"x\n\ny\n", b"no newline", b"\t", b"l1\nl2\nl3\n"]
+    for _ in range(60 if ctx.tier == "quick" else 600):
+        dd = [ctx.rng.choice(dpool) for _ in range(ctx.rng.randrange(0, 9))]
+        data = b"".join(_b64.b64encode(d) + b"\n" for d in dd)
+        if dd and ctx.rng.random() < 0.2:
+            data = data[:-1]
+        st, out, err = pvlib.run_tool([ctx.bin("base64_number")], data, env=pvlib.san_env(), timeout=30)
+        ctx.count("base64_number", 1, [data])
+        want = b"".join(l.replace(b"\t", b" ") + b"\t%d\n" % i for i, d in enumerate(dd) for l in d.split(b"\n") if l)
+        m = pvlib.run_lines(pvlib.PVDRIVER, ["tools.b64number " + hx(data)])[0]
+        if st != 0 or out != want:
+            pvlib.report_violation(ctx, "b64number:" + hx(data)[:60], {"argv": ["base64_number"], "stdin_hex": hx(data), "documents": [hx(d) for d in dd], "status": st,
+                                   "got": out.decode(errors="replace")[:400], "want": want.decode(errors="replace")[:400]},
+                                   summary=f"base64_number on documents {dd!r}: got {out[:80]!r}, every non-empty line with its document's number is {want[:80]!r} (status {st})")
+            break
+        if m != "ok " + hx(out):
+            pvlib.report_violation(ctx, "corr:tools.b64number", {"ops": ["tools.b64number " + hx(data)], "impl": hx(out), "model": m,
+                                   "correspondence": "PV.Tools2.base64Number vs bin/base64_number"}, no_input=True, summary="base64_number model/impl differ")
+            break
     # ---- docenc tool vs model, and the round trip
     run_docenc(ctx)
 
@@ -176,8 +196,8 @@ def run_docenc(ctx):
     for t in texts:
         for nul in (0, 1):
             data = t if not nul else t.replace(b"\n", b"\0")
-            ind = rng.choice(["-", "-", "1", "2", "1,2", "2,3", "1,3"])
-            args = (["-0"] if nul else []) + ([] if ind == "-" else [i for i in ind.split(",")])
+            ind = rng.choice(["-", "-", "1", "2", "1,2", "2,3", "1,3", "2,1", "2,2", "1,2,2,3", "3,1,2"])
+            args = (["-0"] if nul else []) + ([] if ind == "-" else ["1-2", "2-3"] if ind == "1,2,2,3" else [i for i in ind.split(",")])
             if ind == "2,3" and rng.random() < 0.5:
                 args = (["-0"] if nul else []) + ["2-3"]
             ops.append(f"docenc.enc {nul} {ind} {hx(data)}")
@@ -226,8 +246,9 @@ def run_docenc(ctx):
         ds = [rng.choice(docs_nl + docs_nul) for _ in range(n)]
         b64 = b"".join(base64.b64encode(d) + b"\n" for d in ds)
         nul = rng.randrange(2)
-        ind = rng.choice(["-", "1", "2", "3", "1,2", "2,4", "1,3,4", "5"])
-        args = ["-d", "-q"] + (["-0"] if nul else []) + ([] if ind == "-" else ind.split(","))
+        # index arguments as a user may type them: any order, repeated, overlapping ranges (M-N expands to M..N)
+        ind = rng.choice(["-", "1", "2", "3", "1,2", "2,4", "1,3,4", "5", "2,1", "3,1", "2,2", "1,2,3,2,3,4", "2,3,3", "4,2,3"])
+        args = ["-d", "-q"] + (["-0"] if nul else []) + ([] if ind == "-" else ["1-3", "2-4"] if ind == "1,2,3,2,3,4" else ["2-3", "3"] if ind == "2,3,3" else ind.split(","))
         dops.append(f"docenc.dec {nul} {ind} {hx(b64)}")
         druns.append((args, b64, ds, ind, nul))
     model = pvlib.run_lines(pvlib.PVDRIVER, dops)
@@ -236,7 +257,7 @@ def run_docenc(ctx):
         st, out, err = docenc_tool(ctx, args, b64)
         got = "ok " + hx(out) if st == 0 else "ERR:abort"
         sep = b"\0" if nul else b"\n"
-        idx = range(1, len(ds) + 1) if ind == "-" else [int(i) for i in ind.split(",")]
+        idx = range(1, len(ds) + 1) if ind == "-" else sorted(set(int(i) for i in ind.split(",")))
         want = b"".join(ds[i - 1] + sep for i in idx if 1 <= i <= len(ds))
         if st != 0 or out != want:
             pvlib.report_violation(ctx, "docenc-sel:" + o[:80], {"argv": ["docenc"] + args, "stdin_hex": hx(b64),
